@@ -417,13 +417,13 @@ def run(ctx, spec):
             'LfsrLogProbability'):
     pm.wrap(bm, f)
   try:
-    _run(ctx, spec)
+    _dispatch(ctx, spec)
     pm.recheck()
   finally:
     pm.restore()
 
 
-def _run(ctx, spec):
+def _dispatch(ctx, spec):
   s = spec['shard']
   for prefix, fn in (('exh', run_exh), ('lfsrcount', run_lfsrcount),
                      ('cases', run_cases), ('long', run_long),
